@@ -74,7 +74,7 @@ def check(ctx):
     from pfhedge.nn import Hedger, Naked
     g = ctx.gen
     ctx.lean_gate()
-    n = 600 if ctx.tier == "quick" else 8000
+    n = 1500 if ctx.tier == "quick" else 8000
     reqs, meta = [], []
     torch.manual_seed(ctx.seed % (2 ** 31))
     for it in range(n):
